@@ -189,8 +189,14 @@ def run_case(case, ctx):
         engine, _m0 = estim.estimate(dom, measure.as_tuples(pr['meas']), case['total'], pr['solver'], pr['iters'], zeros=case['zeros'],
                                      warm_start=pr['warm_start'])
         ctx.tag('engine_history:warm_start=%s' % pr['warm_start'])
+    vkw, vtags, vseen = estim.variant(case['np_seed'], attrs)
+    if engine is not None:
+        vkw.pop('elim', None)
+    for t in vtags:
+        if t != 'opt:elim_order' or engine is None:
+            ctx.tag(t)
     eng, model = estim.estimate(dom, tuples, case['total'] if case['give_total'] else None, solver, case['iters'], zeros=case['zeros'],
-                                engine=engine)
+                                engine=engine, **vkw)
     judge_model(ctx, model, attrs, shape)
     if not ctx.failures and case['np_seed'] % 2 == 0 and float(model.total) >= 1.0:
         # the returned model stays that distribution while it is being used: drawing records is a read-only use
